@@ -122,6 +122,9 @@ def sensitivity(a):
         mp = os.path.join(sdir, d, "meta.json")
         if os.path.exists(mp):
             meta = json.load(open(mp))
+            if meta.get("obsolete"):
+                print(f"({d}: skipped, neutralised by a later fix: commit in meta.json)", flush=True)
+                continue
             cat.append({"id": d, "patch": os.path.join(sdir, d, "patch.diff"),
                         "properties": [meta["property"]], "what": (meta.get("summary") or "")[:120]})
     only = os.environ.get("MUTANTS")
